@@ -598,7 +598,7 @@ class BinaryRunLengthEncoding(RunLengthEncoding):
     def stripped(self):
         if self.is_empty:
             return _empty_stripped(self.shape)
-        data, padding = runlength.rle_strip(self._data)
+        data, padding = runlength.brle_strip(self._data)
         if padding == (0, 0):
             encoding = self
         else:
@@ -639,7 +639,7 @@ class BinaryRunLengthEncoding(RunLengthEncoding):
         return runlength.brle_gather_1d(self._data, indices)
 
     def gather_nd(self, indices):
-        indices = np.squeeze(indices)
+        indices = np.squeeze(indices, axis=-1)
         return self.gather(indices)
 
     def sorted_gather(self, ordered_indices):
